@@ -733,11 +733,17 @@ static int c17_run(Ctx &ctx) {
     if (g::coin(1, 4)) {
       // history over the obsolete API
       size_t n = (size_t)g::pick(3, 40);
-      Bytes h;
+      Bytes h, lastkey;
       for (size_t i = 0; i < n; i++) {
         int op = g::wpick({3, 2, 5, 3, 2, 1, 1, 1});
         h.push_back((char)(op | ((int)g::pick(0, 1) << 3)));
-        h += g::rbytes(16, 0);
+        Bytes a = g::rbytes(16, 0);
+        if (op <= 1) {
+          // the same key is often given again - to the other interface, to another object, or after a crypt call
+          if (!lastkey.empty() && g::coin(2, 5)) a.replace(0, 8, lastkey);
+          lastkey = a.substr(0, 8);
+        }
+        h += a;
       }
       c.set("hist", h);
       c.set("garbage", g::coin(1, 3) ? Bytes() : g::rbytes(67, 0));
